@@ -3,7 +3,7 @@ import gen_iostate as G
 from props import sink_common as SC
 from props.base import Part
 
-PROPS_FILES = ["C07", "C07pl"]
+PROPS_FILES = ["C07", "C07pl", "C07stop"]
 RULE = ("scenarios for the real io::Dispatcher (engine iostate): peer writes (complete frames, undecodable bytes), "
         "gated handler completions with every result code, peer close / read error, local close / terminate, "
         "control-call completion, service readiness changes, timer expiry, control readiness error, gated "
